@@ -231,7 +231,7 @@ func zero(t types.Type) value {
 		return a
 	case *types.Named:
 		if isReflectValueType(t) {
-			return structure{rtype{nil}, nil, 0}
+			return structure{rtype{nil}, nil, 0, (*value)(nil)}
 		}
 		return zero(t.Underlying())
 	case *types.Alias:
